@@ -54,6 +54,7 @@ class Check:
         self.evaluations = 0
         self.nontrivial = set()
         self.samples = []
+        self._sample_rules = {}
         self.assumptions = []
         self.trusted = [
             'mirdump (rustc_private MIR serialiser, /verif/mirdump)',
@@ -68,14 +69,17 @@ class Check:
         self.errors = []
 
     # ---------------------------------------------------------------- obligations
-    def ob(self, rule, subject, ok, key=None, what=None, detail=None, site=None, nontrivial=True):
+    def ob(self, rule, subject, ok, key=None, what=None, detail=None, site=None, nontrivial=True, show=None):
         """Record one rule instance. key/what/detail are used only when it fails."""
         self.obligations.append((rule, subject, bool(ok), key, what, detail, site))
         if nontrivial:
             self.nontrivial.add((rule, subject))
-        if len(self.samples) < 12 and (len(self.samples) < 6 or not ok):
+        if (show or not ok) and self._sample_rules.get(rule, 0) < 3 and len(self.samples) < 24:
+            self._sample_rules[rule] = self._sample_rules.get(rule, 0) + 1
             self.samples.append({'rule': rule, 'subject': subject, 'verdict': 'discharged' if ok else 'FAILED',
-                                 'site': site or ''})
+                                 'obligation': show or what or '', 'site': site or ''})
+        elif len(self.samples) < 4 and not show:
+            self.samples.append({'rule': rule, 'subject': subject, 'verdict': 'discharged' if ok else 'FAILED', 'site': site or ''})
         return ok
 
     def evals(self, n=1):
